@@ -36,9 +36,7 @@ class ScopeState:
 
         else:
             try:
-                initialized: StateType = state()
-                self._state[state] = initialized
-                return initialized
+                return state()
 
             except Exception as exc:
                 raise MissingState(
